@@ -42,6 +42,22 @@ class Model:
             self.num[op]=self.kron(mats)
         # occupation numbers per basis state
         self.occ=np.array(list(itertools.product(*[ (range(k) if not isinstance(o,LadderOp) else range(-L,L+1)) for k,o in zip(self.dims,self.ops)]))) if self.ops else np.zeros((1,0))
+    @staticmethod
+    def mm(A, B):
+        """Matrix product with the operator convention 0 x (pole) = 0: a coefficient f(N) may be singular on states
+        that the accompanying ladder operators annihilate (e.g. 1/N acting after a on the vacuum); such entries do
+        not contribute.  A pole that meets a non-zero partner is a genuine singularity and stays NaN."""
+        fa, fb = np.isfinite(A), np.isfinite(B)
+        if fa.all() and fb.all():
+            return A @ B
+        A0, B0 = np.where(fa, A, 0), np.where(fb, B, 0)
+        out = A0 @ B0
+        bad = ((~fa).astype(float) @ (B0 != 0).astype(float) > 0) | ((A0 != 0).astype(float) @ (~fb).astype(float) > 0) | ((~fa).astype(float) @ (~fb).astype(float) > 0)
+        if bad.any():
+            out = out.astype(complex)
+            out[bad] = np.nan
+        return out
+
     def kron(self,mats):
         out=np.eye(1)
         for m in mats: out=np.kron(out,m)
@@ -74,14 +90,17 @@ class Model:
         if isinstance(e,sympy.Add): return sum(self.expr(a,subs) for a in e.args)
         if isinstance(e,sympy.Mul):
             out=np.eye(self.D,dtype=complex)
-            for a in e.args: out=out@self.expr(a,subs)
+            for a in e.args: out=self.mm(out,self.expr(a,subs))
             return out
         if isinstance(e,sympy.Pow):
             b,p=e.args
             if p.is_Integer and p>0: return np.linalg.matrix_power(self.expr(b,subs),int(p))
             M=self.expr(b,subs)
             assert np.allclose(M,np.diag(np.diag(M)))
-            return np.diag(np.diag(M).astype(complex)**complex(p))
+            with np.errstate(all='ignore'):
+                d=np.diag(M).astype(complex)
+                vals=np.array([(np.inf if (x==0 and complex(p).real<0) else x**complex(p)) for x in d], dtype=complex)
+            return np.diag(vals)
         if isinstance(e,NumberOperator): return self.numop(e).astype(complex)
         if isinstance(e,(BosonOp,FermionOp,LadderOp,pauli.SigmaOpBase)): return self.gen(e).astype(complex)
         if e.is_commutative:
@@ -105,9 +124,9 @@ class Model:
         for powers,c in x.args[1]:
             T=self.coeff(c,x,subs)
             for op,p in zip(reversed(ops),reversed(list(powers))):
-                if p>0: T=T@np.linalg.matrix_power(self.gen(op),int(p))
+                if p>0: T=self.mm(T,np.linalg.matrix_power(self.gen(op),int(p)))
             for op,p in zip(reversed(ops),reversed(list(powers))):
-                if p<0: T=np.linalg.matrix_power(self.gen(op).conj().T,int(-p))@T
+                if p<0: T=self.mm(np.linalg.matrix_power(self.gen(op).conj().T,int(-p)),T)
             out+=T
         return out
     def safe_cols(self, k):
